@@ -19,6 +19,8 @@ namespace std
 #include "frame_area.h"
 #include "prm_stub.h"
 #include "world_builder/features/continental_plate_models/grains/random_uniform_distribution.cc"
+#include "world_builder/features/oceanic_plate_models/grains/random_uniform_distribution.cc"
+#include "world_builder/features/mantle_layer_models/grains/random_uniform_distribution.cc"
 #include "world_builder/features/continental_plate_models/composition/random.cc"
 #include <cmath>
 using namespace H;
@@ -26,24 +28,27 @@ namespace G = WorldBuilder::Features::ContinentalPlateModels::Grains;
 namespace Co = WorldBuilder::Features::ContinentalPlateModels::Composition;
 
 // k grains; sizes_random: grain size entry negative (=> random sizes); normalize flag symbolic
-extern "C" void h_c15_grains(unsigned long k, unsigned long check)
+template <class M> static void grains_case(unsigned long k, unsigned long check, unsigned long ncomp)
 {
   World *w = make_world(0);
   std::vector<Point<2>> coords(3, Point<2>(0, 0, cartesian));
-  prm.set_len("compositions", 1); prm.set_len("grain sizes", 1); prm.set_len("normalize grain sizes", 1);
-  auto *m = new G::RandomUniformDistribution(w);
+  prm.set_len("compositions", unsigned(ncomp)); prm.set_len("grain sizes", unsigned(ncomp)); prm.set_len("normalize grain sizes", unsigned(ncomp));
+  M *m = new M(w);
   m->parse_entries(w->parameters, coords);
   m->min_depth_surface.constant_value = true; m->max_depth_surface.constant_value = true;
   const Point<3> pos(0, 0, 0, cartesian); const Objects::NaturalCoordinate nc(pos, *w->parameters.coordinate_system);
   const double depth = sym_f64("depth"); const unsigned number = sym_u32("number");
-  sym_assume(depth >= m->min_depth && depth <= m->max_depth && number == m->compositions[0]);      // the model applies
+  for (unsigned i = 0; i < ncomp; ++i) for (unsigned j = 0; j < i; ++j) sym_assume(m->compositions[i] != m->compositions[j]);      // a composition is listed once
+  const unsigned pos_ = sym_u32("position"); sym_assume(pos_ < ncomp);
+  unsigned P = 0; for (unsigned i = 0; i < ncomp; ++i) if (pos_ == i) P = i;
+  sym_assume(depth >= m->min_depth && depth <= m->max_depth && number == m->compositions[P]);      // the model applies through its P-th entry
   WorldBuilder::grains old; old.sizes.resize(k); old.rotation_matrices.resize(k);
   for (unsigned i = 0; i < k; ++i) { old.sizes[i] = sym_f64("gs"); for (unsigned r = 0; r < 9; ++r) old.rotation_matrices[i][r/3][r%3] = sym_f64("gr"); }
   verif15::draws = 0;
   sym_freeze(); sym_allow(&verif15::draws); sym_allow(&verif15::value); sym_allow(&env);
-  const WorldBuilder::grains g = m->G::RandomUniformDistribution::get_grains(pos, nc, depth, number, old, 0, 1);
+  const WorldBuilder::grains g = m->M::get_grains(pos, nc, depth, number, old, 0, 1);
   sym_assert(sym_writes() == 0, "the only pre-existing state a random model may touch is the world's engine");
-  const bool random_sizes = m->grain_sizes[0] < 0;
+  const bool random_sizes = m->grain_sizes[P] < 0;
   sym_assert(verif15::draws == 3 * k + (random_sizes ? k : 0), "the number of draws depends only on the model state, the composition number and the grain count");
   sym_assert(g.sizes.size() == k && g.rotation_matrices.size() == k, "grain count is preserved");
   if (check == 0)
@@ -58,18 +63,25 @@ extern "C" void h_c15_grains(unsigned long k, unsigned long check)
   else
     {
       double total = 0; for (unsigned i = 0; i < k && i < g.sizes.size(); ++i) total += g.sizes[i];
-      if (m->normalize_grain_sizes[0])
+      if (m->normalize_grain_sizes[P])
         {
-          double raw = 0; if (!random_sizes) raw = double(k) * m->grain_sizes[0];
+          double raw = 0; if (!random_sizes) raw = double(k) * m->grain_sizes[P];
           if (random_sizes) { raw = 0; for (unsigned i = 0; i < k; ++i) raw += verif15::value[3*k + i]; }      // the drawn sizes (not all exactly zero: probability-zero event, outside the claim)
           if (raw > 0) sym_assert(sym_eq(total, 1.0), "normalised grain sizes sum to one");
         }
       else if (!random_sizes)
-        for (unsigned i = 0; i < k && i < g.sizes.size(); ++i) sym_assert(sym_eq(g.sizes[i], m->grain_sizes[0]), "fixed grain sizes are returned as given");
+        for (unsigned i = 0; i < k && i < g.sizes.size(); ++i) sym_assert(sym_eq(g.sizes[i], m->grain_sizes[P]), "fixed grain sizes are returned as given");
       else
         for (unsigned i = 0; i < k && i < g.sizes.size(); ++i) sym_assert(g.sizes[i] >= 0 && g.sizes[i] < 1, "random grain sizes lie in [0,1)");
     }
   sym_reach("end");
+}
+
+extern "C" void h_c15_grains(unsigned long k, unsigned long check, unsigned long family, unsigned long ncomp)
+{
+  if (family == 0) grains_case<WorldBuilder::Features::ContinentalPlateModels::Grains::RandomUniformDistribution>(k, check, ncomp);
+  else if (family == 1) grains_case<WorldBuilder::Features::OceanicPlateModels::Grains::RandomUniformDistribution>(k, check, ncomp);
+  else grains_case<WorldBuilder::Features::MantleLayerModels::Grains::RandomUniformDistribution>(k, check, ncomp);
 }
 
 extern "C" void h_c15_composition(void)
